@@ -237,6 +237,7 @@ def run(prog, ctx):
     # ------------------------------------------------------------------ D6 / D7
     check_deepest_only_finest(prog, ctx)
     check_boundary_agreement(prog, ctx)
+    check_no_override_bypass(prog, ctx)
 
     # ------------------------------------------------------------------ D3
     rp = prog.func(SD + ".refinement_postprocessing")
@@ -433,3 +434,44 @@ def check_boundary_agreement(prog, ctx):
               "without boundary points the first and last coordinate of every dimension are dropped before the tensor product",
               "get_points_all_dim no longer drops the domain end points when the grid has no boundary points: component grids report points the "
               "grid does not evaluate (the combined interpolant is 0 there)")
+
+
+def check_no_override_bypass(prog, ctx, rule="C03.D9"):
+    """D9: the dimension-wise strategy's own point sets are used wherever the generic driver evaluates a component.  Inside a method m1 of
+    the strategy class (or a subclass), a call `super().m2(...)` / `Base.m2(self, ...)` with m2 != m1 runs the base implementation of m2
+    although the class overrides m2 -- the base version works on the regular level-vector grid, not on the refined one-dimensional
+    point sets (the pinned tree has no such call; `super().m1(...)` inside m1 is the ordinary extension idiom and is not meant)."""
+    sd = prog.cls("spatiallyAdaptiveSingleDimension2.SpatiallyAdaptiveSingleDimensions2")
+    n = 0
+    nm = 0
+    for ci in prog.all_subclasses(sd):
+        for fi in ci.methods.values():
+            nm += 1
+            for x in walk_local(fi.node):
+                if not (isinstance(x, ast.Call) and isinstance(x.func, ast.Attribute)):
+                    continue
+                rec = x.func.value
+                via = None
+                reached = None
+                m2 = x.func.attr
+                if isinstance(rec, ast.Call) and isinstance(rec.func, ast.Name) and rec.func.id == "super":
+                    via = "super()"
+                    reached = next((k.methods[m2] for k in fi.cls.mro[1:] if m2 in k.methods), None)
+                elif isinstance(rec, (ast.Name, ast.Attribute)) and x.args and isinstance(x.args[0], ast.Name) and x.args[0].id == fi.self_name:
+                    k = prog.resolve_class_expr(fi.module.name, rec, fi.cls)
+                    if k is not None and k is not ci and k in ci.mro:
+                        via = src(rec)
+                        reached = prog.lookup_method(k, m2)
+                if via is None:
+                    continue
+                n += 1
+                own = prog.lookup_method(ci, m2)
+                overriding = m2 != fi.name and own is not None and reached is not None and own is not reached
+                ctx.check(not overriding, rule, R.key_of(fi, "no-bypass:%s" % m2), fi.loc(x),
+                          "%s.%s(...) inside %s extends the same method" % (via, m2, fi.name),
+                          "`%s` inside %s.%s runs the base implementation of %s, but %s resolves %s to %s: the override that works on the "
+                          "refined one-dimensional point sets is bypassed" % (src(x)[:120], ci.name, fi.name, m2, ci.name, m2,
+                                                                              prog.lookup_method(ci, m2).qual if prog.lookup_method(ci, m2) else "?"))
+    ctx.floor(rule, nm, 20, "methods of the dimension-wise strategy scanned for calls that bypass an override")
+    if n == 0:
+        ctx.ok(rule, "%s::no-bypass" % sd.qual, "sparseSpACE/spatiallyAdaptiveSingleDimension2.py", "no super()/Base.method call in the strategy")
